@@ -154,7 +154,7 @@ package jxpath
 //@   assigns nothing
 //@ func positionOfNthRune
 //@   props C19 C09
-//@   ensures [C19:nth-code-point] (0 <= n && n < runeCount(s)) ==> (0 <= result && result < len(s) && runeStart(s, result) && runesBefore(s, result) == n)
+//@   ensures [C19+C09:nth-code-point] (0 <= n && n < runeCount(s)) ==> (0 <= result && result < len(s) && runeStart(s, result) && runesBefore(s, result) == n)
 //@   ensures (n < 0 || n >= runeCount(s)) ==> result == -1
 //@   assigns nothing
 //@   loop 0 invariant 0 <= $pos && $pos <= len(s) && runeStart(s, $pos) && i == runesBefore(s, $pos) && (n < 0 || i <= n)
